@@ -1,4 +1,5 @@
 import DvidModel.Model.Manager
+import DvidModel.Lemmas.Manager
 /-
   C07 — The version DAG stays well formed and identifiers stay unique.
   Theorems about the mirror of the repo manager (Model/Manager.lean), whose behaviour-relevant shape facts
@@ -470,6 +471,723 @@ example :
     let s := [Req.newRepo none, .commit "g1", .newVersion "g1" none, .branch "g1" "dev" none, .merge ["g2", "g3"],
               .commit "g2", .commit "g3", .merge ["g2", "g3"], .merge ["g2", "g2"]].foldl (fun s r => (step s r).1) init
     (s.nodes.map (fun n => (n.v, n.parents))) = [(1, []), (2, [1]), (3, [1]), (4, [2, 3])] := by
+  decide
+
+end Dvid.Props.C07
+
+namespace Dvid.Props.C07
+open Dvid Dvid.Manager
+
+/-! ### identifiers: every version id and every UUID names exactly one node -/
+
+/-- a version id names one node; the two identifier maps agree with the nodes -/
+def IdL (ns : List Node) (u2v : List (String × Nat)) (v2u : List (Nat × String)) : Prop :=
+  (∀ n ∈ ns, ∀ m ∈ ns, n.v = m.v → n = m) ∧
+  (∀ n ∈ ns, lookup u2v n.uuid = some n.v) ∧
+  (∀ n ∈ ns, lookup v2u n.v = some n.uuid)
+
+def IdInv (s : State) : Prop := IdL s.nodes s.u2v s.v2u
+
+def PresId (g : Node → Node) : Prop := ∀ n, (g n).v = n.v ∧ (g n).uuid = n.uuid
+
+theorem idL_map {ns : List Node} {a : List (String × Nat)} {b : List (Nat × String)} (g : Node → Node)
+    (hg : PresId g) (h : IdL ns a b) : IdL (ns.map g) a b := by
+  refine ⟨?_, ?_, ?_⟩
+  · intro n hn m hm e
+    obtain ⟨n0, hn0, rfl⟩ := List.mem_map.mp hn
+    obtain ⟨m0, hm0, rfl⟩ := List.mem_map.mp hm
+    rw [(hg n0).1, (hg m0).1] at e
+    rw [h.1 n0 hn0 m0 hm0 e]
+  · intro n hn
+    obtain ⟨n0, hn0, rfl⟩ := List.mem_map.mp hn
+    rw [(hg n0).1, (hg n0).2]; exact h.2.1 n0 hn0
+  · intro n hn
+    obtain ⟨n0, hn0, rfl⟩ := List.mem_map.mp hn
+    rw [(hg n0).1, (hg n0).2]; exact h.2.2 n0 hn0
+
+theorem idL_snoc {ns : List Node} {a : List (String × Nat)} {b : List (Nat × String)} (h : IdL ns a b) (c : Node)
+    (hfresh : ∀ n ∈ ns, n.v ≠ c.v) (hu : lookup a c.uuid = some c.v) (hv : lookup b c.v = some c.uuid) :
+    IdL (ns ++ [c]) a b := by
+  refine ⟨?_, ?_, ?_⟩
+  · intro n hn m hm e
+    rcases List.mem_append.mp hn with hn1 | hn1 <;> rcases List.mem_append.mp hm with hm1 | hm1
+    · exact h.1 n hn1 m hm1 e
+    · simp only [List.mem_singleton] at hm1; rw [hm1] at e; exact absurd e (hfresh n hn1)
+    · simp only [List.mem_singleton] at hn1; rw [hn1] at e; exact absurd e.symm (hfresh m hm1)
+    · simp only [List.mem_singleton] at hn1 hm1; rw [hn1, hm1]
+  · intro n hn
+    rcases List.mem_append.mp hn with hn | hn
+    · exact h.2.1 n hn
+    · simp only [List.mem_singleton] at hn; subst hn; exact hu
+  · intro n hn
+    rcases List.mem_append.mp hn with hn | hn
+    · exact h.2.2 n hn
+    · simp only [List.mem_singleton] at hn; subst hn; exact hv
+
+theorem presId_ite (c : Node → Prop) [DecidablePred c] (f : Node → Node) (hf : PresId f) :
+    PresId (fun n => if c n then f n else n) := by
+  intro n
+  by_cases h : c n
+  · simp only [h, if_true]; exact hf n
+  · simp [h]
+
+theorem presId_addChild (c : Nat) : PresId (fun n => { n with children := n.children ++ [c] }) := by
+  intro n; simp
+theorem presId_lock : PresId (fun n => { n with locked := true }) := by
+  intro n; simp
+
+/-- allocating an identifier: the uuid is new (the existence check of `newUUID`, a regenerated fact), the version
+    id is the counter; the maps then name the new pair and still name every old node -/
+theorem newUUID_ids {s s1 : State} {a : Option String} {u : String} {v : Nat} (h : newUUID s a = some (s1, u, v))
+    (hi : Inv s) (hid : IdInv s) :
+    IdL s.nodes s1.u2v s1.v2u ∧ lookup s1.u2v u = some v ∧ lookup s1.v2u v = some u ∧ (∀ n ∈ s.nodes, n.v ≠ v) := by
+  unfold newUUID at h
+  simp only [Gen.newUUIDChecksExisting, Bool.true_and] at h
+  split at h
+  · cases h
+  · rename_i hfree
+    simp only [Option.some.injEq, Prod.mk.injEq] at h
+    obtain ⟨rfl, rfl, rfl⟩ := h
+    have hfree' : lookup s.u2v (uuidFor a s.nextV) = none := by
+      cases hl : lookup s.u2v (uuidFor a s.nextV) with
+      | none => rfl
+      | some x => rw [hl] at hfree; simp at hfree
+    have hvne : ∀ n ∈ s.nodes, n.v ≠ s.nextV := fun n hn => Nat.ne_of_lt (hi.1 n hn)
+    refine ⟨⟨hid.1, ?_, ?_⟩, lookup_setKey_eq _ _ _, lookup_setKey_eq _ _ _, hvne⟩
+    · intro n hn
+      have hne : n.uuid ≠ uuidFor a s.nextV := by
+        intro e
+        have := hid.2.1 n hn
+        rw [e, hfree'] at this; cases this
+      simp only
+      rw [lookup_setKey_ne _ _ _ _ hne]; exact hid.2.1 n hn
+    · intro n hn
+      simp only
+      rw [lookup_setKey_ne _ _ _ _ (hvne n hn)]; exact hid.2.2 n hn
+
+theorem newRepo_id (s : State) (a : Option String) (hi : Inv s) (hid : IdInv s) : IdInv (newRepo s a).1 := by
+  unfold newRepo
+  split
+  · exact hid
+  · split
+    · exact hid
+    · rename_i s1 uuid v hu
+      obtain ⟨hn, _, _, _⟩ := newUUID_nodes hu
+      obtain ⟨hl, h1, h2, h3⟩ := newUUID_ids hu hi hid
+      unfold IdInv
+      simp only [hn]
+      exact idL_snoc hl _ h3 h1 h2
+
+theorem updNode_id (s : State) (repo : String) (v : Nat) (f : Node → Node) (hf : PresId f) (h : IdInv s) :
+    IdInv (s.updNode repo v f) := by
+  unfold IdInv State.updNode
+  exact idL_map _ (presId_ite (fun n => n.v = v ∧ n.repo = repo) f hf) h
+
+theorem commit_id (s : State) (u : String) (h : IdInv s) : IdInv (commit s u).1 := by
+  unfold commit
+  repeat' split
+  all_goals first | exact h | exact updNode_id s _ _ _ presId_lock h
+
+theorem attachChild_id (s s1 : State) (repo : String) (v : Nat) (cu : String) (cv : Nat) (bname : String)
+    (hn : s1.nodes = s.nodes) (hl : IdL s.nodes s1.u2v s1.v2u) (h1 : lookup s1.u2v cu = some cv)
+    (h2 : lookup s1.v2u cv = some cu) (h3 : ∀ n ∈ s.nodes, n.v ≠ cv) :
+    IdInv (attachChild s1 repo v cu cv bname) := by
+  unfold IdInv attachChild
+  simp only [State.updNode, hn]
+  have hmapv : ∀ n ∈ s.nodes.map (fun n => if n.v = v ∧ n.repo = repo then { n with children := n.children ++ [cv] } else n), n.v ≠ cv := by
+    intro n hn'
+    obtain ⟨n0, hn0, rfl⟩ := List.mem_map.mp hn'
+    have := h3 n0 hn0
+    split <;> simpa using this
+  have hfil : (s.nodes.map (fun n => if n.v = v ∧ n.repo = repo then { n with children := n.children ++ [cv] } else n)).filter
+      (fun n => !(decide (n.v = cv ∧ n.repo = repo))) =
+      s.nodes.map (fun n => if n.v = v ∧ n.repo = repo then { n with children := n.children ++ [cv] } else n) := by
+    apply List.filter_eq_self.mpr
+    intro n hn'
+    have := hmapv n hn'
+    simp only [Bool.not_eq_true', decide_eq_false_iff_not, not_and]
+    intro e; exact absurd e this
+  rw [hfil]
+  exact idL_snoc (idL_map _ (presId_ite (fun n => n.v = v ∧ n.repo = repo) _ (presId_addChild cv)) hl) _ hmapv h1 h2
+
+theorem newVersion_id (s : State) (p b : String) (a : Option String) (hi : Inv s) (h : IdInv s) :
+    IdInv (newVersion s p b a).1 := by
+  unfold newVersion
+  cases hr : lookup s.repos p with
+  | none => exact h
+  | some repo =>
+    cases hv : lookup s.u2v p with
+    | none => exact h
+    | some v =>
+      simp only
+      cases hnode : s.node? repo v with
+      | none => exact h
+      | some node =>
+        simp only
+        cases hl : node.locked with
+        | false => simp; exact h
+        | true =>
+          simp only [Bool.not_true, Bool.false_eq_true, if_false]
+          cases hb : branchOk s repo node b with
+          | none => exact h
+          | some bname =>
+            simp only
+            cases hu : newUUID s a with
+            | none => exact h
+            | some t =>
+              obtain ⟨s1, cu, cv⟩ := t
+              obtain ⟨hn, _, _, _⟩ := newUUID_nodes hu
+              obtain ⟨hl', h1, h2, h3⟩ := newUUID_ids hu hi h
+              exact attachChild_id s s1 repo v cu cv bname hn hl' h1 h2 h3
+
+/-- the fold of `updNode` in `linkMerge` is one node-wise update that keeps identity, repo, parents, commit flags
+    and uuids, leaves the identifier maps alone, and adds the child id to exactly the listed parents of the repo -/
+theorem foldl_updNode_full (repo : String) (cv : Nat) (pvs : List Nat) (s : State) :
+    ∃ g : Node → Node, Pres g ∧ PresId g ∧
+      (∀ n x, x ∈ (g n).children ↔ x ∈ n.children ∨ (x = cv ∧ n.repo = repo ∧ n.v ∈ pvs)) ∧
+      (pvs.foldl (fun st pv => st.updNode repo pv (fun n => { n with children := n.children ++ [cv] })) s).nodes = s.nodes.map g ∧
+      (pvs.foldl (fun st pv => st.updNode repo pv (fun n => { n with children := n.children ++ [cv] })) s).nextV = s.nextV ∧
+      (pvs.foldl (fun st pv => st.updNode repo pv (fun n => { n with children := n.children ++ [cv] })) s).u2v = s.u2v ∧
+      (pvs.foldl (fun st pv => st.updNode repo pv (fun n => { n with children := n.children ++ [cv] })) s).v2u = s.v2u := by
+  induction pvs generalizing s with
+  | nil => exact ⟨id, fun _ => ⟨rfl, rfl, rfl, id⟩, fun _ => ⟨rfl, rfl⟩, by intro n x; simp, by simp, rfl, rfl, rfl⟩
+  | cons pv rest ih =>
+    simp only [List.foldl_cons]
+    obtain ⟨g, hg, hgi, hgc, hn, hv, hu, hw⟩ := ih (s.updNode repo pv (fun n => { n with children := n.children ++ [cv] }))
+    let f : Node → Node := fun n => if n.v = pv ∧ n.repo = repo then { n with children := n.children ++ [cv] } else n
+    have hf : Pres f := pres_ite (fun n => n.v = pv ∧ n.repo = repo) _ (pres_addChild cv)
+    have hfi : PresId f := presId_ite (fun n => n.v = pv ∧ n.repo = repo) _ (presId_addChild cv)
+    refine ⟨g ∘ f, ?_, ?_, ?_, ?_, ?_, ?_, ?_⟩
+    · intro n
+      have a := hf n
+      have b := hg (f n)
+      exact ⟨by simp [Function.comp, b.1, a.1], by simp [Function.comp, b.2.1, a.2.1],
+        by simp [Function.comp, b.2.2.1, a.2.2.1], fun hl => b.2.2.2 (a.2.2.2 hl)⟩
+    · intro n
+      have a := hfi n
+      have b := hgi (f n)
+      exact ⟨by simp [Function.comp, b.1, a.1], by simp [Function.comp, b.2, a.2]⟩
+    · intro n x
+      simp only [Function.comp]
+      rw [hgc (f n) x, (hf n).1, (hf n).2.1]
+      have hfc : x ∈ (f n).children ↔ x ∈ n.children ∨ (x = cv ∧ n.v = pv ∧ n.repo = repo) := by
+        by_cases hc : n.v = pv ∧ n.repo = repo
+        · simp [f, hc]
+        · simp [f, hc]
+      rw [hfc]
+      simp only [List.mem_cons]
+      constructor
+      · rintro ((h | ⟨h1, h2, h3⟩) | ⟨h1, h2, h3⟩)
+        · exact Or.inl h
+        · exact Or.inr ⟨h1, h3, Or.inl h2⟩
+        · exact Or.inr ⟨h1, h2, Or.inr h3⟩
+      · rintro (h | ⟨h1, h2, h3 | h3⟩)
+        · exact Or.inl (Or.inl h)
+        · exact Or.inl (Or.inr ⟨h1, h3, h2⟩)
+        · exact Or.inr ⟨h1, h2, h3⟩
+    · rw [hn]; simp [State.updNode, List.map_map, f]
+    · rw [hv]; rfl
+    · rw [hu]; rfl
+    · rw [hw]; rfl
+
+theorem linkMerge_id (s s1 : State) (repo : String) (pvs : List Nat) (cu : String) (cv : Nat)
+    (hn : s1.nodes = s.nodes) (hl : IdL s.nodes s1.u2v s1.v2u) (h1 : lookup s1.u2v cu = some cv)
+    (h2 : lookup s1.v2u cv = some cu) (h3 : ∀ n ∈ s.nodes, n.v ≠ cv) :
+    IdInv (linkMerge s1 repo pvs cu cv) := by
+  unfold IdInv linkMerge
+  obtain ⟨g, _, hgi, _, hgn, _, hgu, hgw⟩ := foldl_updNode_full repo cv pvs { s1 with repos := setKey s1.repos cu repo }
+  simp only
+  rw [hgn, hgu, hgw]
+  simp only [hn]
+  apply idL_snoc (idL_map g hgi hl) _ _ h1 h2
+  intro n hn'
+  obtain ⟨n0, hn0, rfl⟩ := List.mem_map.mp hn'
+  rw [(hgi n0).1]; exact h3 n0 hn0
+
+theorem merge_id (s : State) (ps : List String) (hi : Inv s) (h : IdInv s) : IdInv (merge s ps).1 := by
+  unfold merge
+  simp only [Gen.mergeValidatesFirst, if_true]
+  split
+  · exact h
+  · cases hrepo : (ps.head? >>= lookup s.repos) with
+    | none => exact h
+    | some repo =>
+      simp only
+      cases hpvs : ps.mapM (mergeParentOk s repo) with
+      | none => exact h
+      | some pvs =>
+        simp only
+        split
+        · exact h
+        · cases hu : newUUID s none with
+          | none => exact h
+          | some t =>
+            obtain ⟨s1, cu, cv⟩ := t
+            obtain ⟨hn, _, _, _⟩ := newUUID_nodes hu
+            obtain ⟨hl', h1, h2, h3⟩ := newUUID_ids hu hi h
+            exact linkMerge_id s s1 repo pvs cu cv hn hl' h1 h2 h3
+
+theorem tag_id (s : State) (p t : String) (hi : Inv s) (h : IdInv s) : IdInv (tag s p t).1 := by
+  unfold tag
+  split
+  · exact h
+  · have h1 := newVersion_id s p ("tag-" ++ t) (some t) hi h
+    cases hnv : newVersion s p ("tag-" ++ t) (some t) with
+    | mk s1 r1 =>
+      rw [hnv] at h1
+      simp only at h1 ⊢
+      cases r1 with
+      | err => simp only [Gen.tagCommitsOnlyOnSuccess, if_true]; exact h1
+      | ok u => exact commit_id s1 t h1
+
+/-- `deleteRepo`'s loop forgets the identifiers of the repo's own versions only: a node of another repo keeps
+    both of its map entries, because no two nodes share a version id or a uuid -/
+theorem dropIds_fold (repo : String) (s : State) (hid : IdInv s) (l : List Node) :
+    ∀ st : State, (∀ m ∈ l, m ∈ s.nodes ∧ m.repo = repo) →
+      (∀ n ∈ s.nodes, n.repo ≠ repo → lookup st.u2v n.uuid = some n.v ∧ lookup st.v2u n.v = some n.uuid) →
+      (∀ k u, lookup st.v2u k = some u → lookup s.v2u k = some u) →
+      (∀ n ∈ s.nodes, n.repo ≠ repo →
+        lookup (l.foldl dropIds st).u2v n.uuid = some n.v ∧ lookup (l.foldl dropIds st).v2u n.v = some n.uuid) := by
+  induction l with
+  | nil => intro st _ h2 _; exact h2
+  | cons m rest ih =>
+    intro st hl h2 h3
+    simp only [List.foldl_cons]
+    obtain ⟨hm, hmr⟩ := hl m (by simp)
+    apply ih (dropIds st m) (fun x hx => hl x (by simp [hx]))
+    · intro n hn hnr
+      unfold dropIds
+      cases hlk : lookup st.v2u m.v with
+      | none => exact h2 n hn hnr
+      | some u =>
+        have hu : u = m.uuid := by
+          have a := h3 _ _ hlk
+          rw [hid.2.2 m hm] at a
+          exact (Option.some.inj a).symm
+        have hvne : n.v ≠ m.v := by
+          intro e
+          have := hid.1 n hn m hm e
+          rw [this] at hnr; exact hnr hmr
+        have hune : n.uuid ≠ u := by
+          rw [hu]
+          intro e
+          have a := hid.2.1 n hn
+          rw [e, hid.2.1 m hm] at a
+          exact hvne (Option.some.inj a).symm
+        simp only
+        rw [lookup_delKey_ne _ _ _ hune, lookup_delKey_ne _ _ _ hvne]
+        exact h2 n hn hnr
+    · intro k u hk
+      unfold dropIds at hk
+      cases hlk : lookup st.v2u m.v with
+      | none => rw [hlk] at hk; exact h3 k u hk
+      | some u' =>
+        rw [hlk] at hk
+        simp only at hk
+        by_cases e : k = m.v
+        · rw [e, lookup_delKey_eq] at hk; cases hk
+        · rw [lookup_delKey_ne _ _ _ e] at hk; exact h3 k u hk
+
+theorem dropIds_fold_nodes (l : List Node) (st : State) : (l.foldl dropIds st).nodes = st.nodes := by
+  induction l generalizing st with
+  | nil => rfl
+  | cons n rest ih =>
+    simp only [List.foldl_cons]
+    rw [ih]
+    unfold dropIds
+    split <;> rfl
+
+theorem deleteRepo_id (s : State) (u : String) (h : IdInv s) : IdInv (deleteRepo s u).1 := by
+  unfold deleteRepo
+  split
+  · exact h
+  · rename_i repo _
+    split
+    · exact h
+    · have hf := dropIds_fold repo s h (s.nodes.filter (·.repo = repo)) s
+        (by intro m hm; have := List.mem_filter.mp hm; exact ⟨this.1, by simpa using this.2⟩)
+        (by intro n hn _; exact ⟨h.2.1 n hn, h.2.2 n hn⟩) (by intro k u hk; exact hk)
+      unfold IdInv
+      simp only [dropIds_fold_nodes]
+      refine ⟨?_, ?_, ?_⟩
+      · intro n hn m hm e
+        exact h.1 n (List.mem_filter.mp hn).1 m (List.mem_filter.mp hm).1 e
+      · intro n hn
+        have hn' := List.mem_filter.mp hn
+        exact (hf n hn'.1 (by simpa using hn'.2)).1
+      · intro n hn
+        have hn' := List.mem_filter.mp hn
+        exact (hf n hn'.1 (by simpa using hn'.2)).2
+
+theorem step_id (s : State) (r : Req) (hi : Inv s) (h : IdInv s) : IdInv (step s r).1 := by
+  cases r with
+  | newRepo a => exact newRepo_id s a hi h
+  | commit u => exact commit_id s u h
+  | newVersion p a =>
+    simp only [step]
+    cases a with
+    | none => exact newVersion_id s p "" none hi h
+    | some u => simp only; split <;> first | exact newVersion_id s p "" (some u) hi h | exact h
+  | branch p name a =>
+    simp only [step]
+    split
+    · exact h
+    · cases a with
+      | none => exact newVersion_id s p name none hi h
+      | some u => simp only; split <;> first | exact newVersion_id s p name (some u) hi h | exact h
+  | tag p t => exact tag_id s p t hi h
+  | merge ps => exact merge_id s ps hi h
+  | deleteRepo u => exact deleteRepo_id s u h
+
+theorem reachable_id (rs : List Req) : IdInv (rs.foldl (fun s r => (step s r).1) init) := by
+  suffices h : ∀ s, Inv s → IdInv s → Inv (rs.foldl (fun s r => (step s r).1) s) ∧ IdInv (rs.foldl (fun s r => (step s r).1) s) by
+    exact (h init ⟨by intro n hn; simp [init] at hn, by intro n hn; simp [init] at hn⟩
+      ⟨by intro n hn; simp [init] at hn, by intro n hn; simp [init] at hn, by intro n hn; simp [init] at hn⟩).2
+  induction rs with
+  | nil => intro s hs hid; exact ⟨hs, hid⟩
+  | cons r rest ih => intro s hs hid; exact ih _ (step_inv s r hs) (step_id s r hs hid)
+
+/-- **every UUID and every local version id names exactly one node**, after any sequence of requests (valid,
+    rejected, caller-assigned or duplicate identifiers, repo deletions and re-use of a deleted repo's UUIDs) -/
+theorem ids_name_one_node (rs : List Req) :
+    let s := rs.foldl (fun s r => (step s r).1) init
+    (∀ n ∈ s.nodes, ∀ m ∈ s.nodes, n.v = m.v → n = m) ∧
+    (∀ n ∈ s.nodes, ∀ m ∈ s.nodes, n.uuid = m.uuid → n = m) ∧
+    (∀ n ∈ s.nodes, lookup s.u2v n.uuid = some n.v ∧ lookup s.v2u n.v = some n.uuid) := by
+  intro s
+  have h := reachable_id rs
+  refine ⟨h.1, ?_, fun n hn => ⟨h.2.1 n hn, h.2.2 n hn⟩⟩
+  intro n hn m hm e
+  have a := h.2.1 n hn
+  rw [e, h.2.1 m hm] at a
+  exact h.1 n hn m hm (Option.some.inj a).symm
+
+/-! ### links: parent and child lists mirror each other, one root per repo -/
+
+/-- every child id in a child list names a node of the same repo that lists this node as a parent, and the
+    other way round; a node without parents is the root its repo is named after -/
+def LinkL (ns : List Node) : Prop :=
+  (∀ n ∈ ns, ∀ c ∈ n.children, ∃ m ∈ ns, m.v = c ∧ m.repo = n.repo ∧ n.v ∈ m.parents) ∧
+  (∀ m ∈ ns, ∀ p ∈ m.parents, ∃ n ∈ ns, n.v = p ∧ n.repo = m.repo ∧ m.v ∈ n.children) ∧
+  (∀ n ∈ ns, n.parents = [] → n.uuid = n.repo)
+
+def LinkInv (s : State) : Prop := LinkL s.nodes
+
+/-- linking a new node `c` below the nodes `pvs` of `repo`: the parents get the child id, the child lists them -/
+theorem linkL_attach {ns : List Node} (h : LinkL ns) (g : Node → Node) (hg : Pres g) (hgi : PresId g)
+    (repo : String) (cv : Nat) (pvs : List Nat)
+    (hgc : ∀ n x, x ∈ (g n).children ↔ x ∈ n.children ∨ (x = cv ∧ n.repo = repo ∧ n.v ∈ pvs))
+    (c : Node) (hcv : c.v = cv) (hcr : c.repo = repo) (hcp : c.parents = pvs) (hcc : c.children = [])
+    (hne : pvs ≠ []) (hp : ∀ p ∈ pvs, ∃ m ∈ ns, m.v = p ∧ m.repo = repo) :
+    LinkL (ns.map g ++ [c]) := by
+  refine ⟨?_, ?_, ?_⟩
+  · intro n hn x hx
+    rcases List.mem_append.mp hn with hn1 | hn1
+    · obtain ⟨n0, hn0, rfl⟩ := List.mem_map.mp hn1
+      rcases (hgc n0 x).mp hx with hx1 | ⟨hx1, hx2, hx3⟩
+      · obtain ⟨m, hm, hmv, hmr, hmp⟩ := h.1 n0 hn0 x hx1
+        refine ⟨g m, List.mem_append_left _ (List.mem_map.mpr ⟨m, hm, rfl⟩), ?_, ?_, ?_⟩
+        · rw [(hg m).1]; exact hmv
+        · rw [(hg m).2.1, (hg n0).2.1]; exact hmr
+        · rw [(hg m).2.2.1, (hg n0).1]; exact hmp
+      · refine ⟨c, List.mem_append_right _ (by simp), ?_, ?_, ?_⟩
+        · rw [hcv, hx1]
+        · rw [hcr, (hg n0).2.1, hx2]
+        · rw [hcp, (hg n0).1]; exact hx3
+    · simp only [List.mem_singleton] at hn1
+      rw [hn1, hcc] at hx; cases hx
+  · intro m hm p hpm
+    rcases List.mem_append.mp hm with hm1 | hm1
+    · obtain ⟨m0, hm0, rfl⟩ := List.mem_map.mp hm1
+      rw [(hg m0).2.2.1] at hpm
+      obtain ⟨n, hn, hnv, hnr, hnc⟩ := h.2.1 m0 hm0 p hpm
+      refine ⟨g n, List.mem_append_left _ (List.mem_map.mpr ⟨n, hn, rfl⟩), ?_, ?_, ?_⟩
+      · rw [(hg n).1]; exact hnv
+      · rw [(hg n).2.1, (hg m0).2.1]; exact hnr
+      · rw [(hg m0).1]; exact (hgc n _).mpr (Or.inl hnc)
+    · simp only [List.mem_singleton] at hm1
+      rw [hm1, hcp] at hpm
+      obtain ⟨n, hn, hnv, hnr⟩ := hp p hpm
+      refine ⟨g n, List.mem_append_left _ (List.mem_map.mpr ⟨n, hn, rfl⟩), ?_, ?_, ?_⟩
+      · rw [(hg n).1]; exact hnv
+      · rw [(hg n).2.1, hm1, hcr]; exact hnr
+      · rw [hm1, hcv]; exact (hgc n _).mpr (Or.inr ⟨rfl, hnr, hnv ▸ hpm⟩)
+  · intro n hn hnp
+    rcases List.mem_append.mp hn with hn1 | hn1
+    · obtain ⟨n0, hn0, rfl⟩ := List.mem_map.mp hn1
+      rw [(hg n0).2.2.1] at hnp
+      rw [(hgi n0).2, (hg n0).2.1]; exact h.2.2 n0 hn0 hnp
+    · simp only [List.mem_singleton] at hn1
+      rw [hn1, hcp] at hnp; exact absurd hnp hne
+
+/-- a node-wise update that keeps ids, repo, parents and children keeps the links -/
+theorem linkL_map {ns : List Node} (h : LinkL ns) (g : Node → Node) (hg : Pres g) (hgi : PresId g)
+    (hgc : ∀ n, (g n).children = n.children) : LinkL (ns.map g) := by
+  refine ⟨?_, ?_, ?_⟩
+  · intro n hn x hx
+    obtain ⟨n0, hn0, rfl⟩ := List.mem_map.mp hn
+    rw [hgc] at hx
+    obtain ⟨m, hm, hmv, hmr, hmp⟩ := h.1 n0 hn0 x hx
+    exact ⟨g m, List.mem_map.mpr ⟨m, hm, rfl⟩, by rw [(hg m).1]; exact hmv, by rw [(hg m).2.1, (hg n0).2.1]; exact hmr,
+      by rw [(hg m).2.2.1, (hg n0).1]; exact hmp⟩
+  · intro m hm p hpm
+    obtain ⟨m0, hm0, rfl⟩ := List.mem_map.mp hm
+    rw [(hg m0).2.2.1] at hpm
+    obtain ⟨n, hn, hnv, hnr, hnc⟩ := h.2.1 m0 hm0 p hpm
+    exact ⟨g n, List.mem_map.mpr ⟨n, hn, rfl⟩, by rw [(hg n).1]; exact hnv, by rw [(hg n).2.1, (hg m0).2.1]; exact hnr,
+      by rw [hgc, (hg m0).1]; exact hnc⟩
+  · intro n hn hnp
+    obtain ⟨n0, hn0, rfl⟩ := List.mem_map.mp hn
+    rw [(hg n0).2.2.1] at hnp
+    rw [(hgi n0).2, (hg n0).2.1]; exact h.2.2 n0 hn0 hnp
+
+theorem newRepo_link (s : State) (a : Option String) (h : LinkInv s) : LinkInv (newRepo s a).1 := by
+  unfold newRepo
+  split
+  · exact h
+  · split
+    · exact h
+    · rename_i s1 uuid v hu
+      obtain ⟨hn, _, _, _⟩ := newUUID_nodes hu
+      unfold LinkInv at h ⊢
+      simp only [hn]
+      refine ⟨?_, ?_, ?_⟩
+      · intro n hn' x hx
+        rcases List.mem_append.mp hn' with h1 | h1
+        · obtain ⟨m, hm, r⟩ := h.1 n h1 x hx
+          exact ⟨m, List.mem_append_left _ hm, r⟩
+        · simp only [List.mem_singleton] at h1; rw [h1] at hx; cases hx
+      · intro m hm p hp
+        rcases List.mem_append.mp hm with h1 | h1
+        · obtain ⟨n, hn', r⟩ := h.2.1 m h1 p hp
+          exact ⟨n, List.mem_append_left _ hn', r⟩
+        · simp only [List.mem_singleton] at h1; rw [h1] at hp; cases hp
+      · intro n hn' hp
+        rcases List.mem_append.mp hn' with h1 | h1
+        · exact h.2.2 n h1 hp
+        · simp only [List.mem_singleton] at h1; rw [h1]
+
+theorem commit_link (s : State) (u : String) (h : LinkInv s) : LinkInv (commit s u).1 := by
+  unfold commit
+  repeat' split
+  all_goals first
+    | exact h
+    | (unfold LinkInv State.updNode
+       exact linkL_map h _ (pres_ite _ _ pres_lock) (presId_ite _ _ presId_lock) (by intro n; split <;> rfl))
+
+theorem attachChild_link (s s1 : State) (repo : String) (v : Nat) (cu : String) (cv : Nat) (bname : String)
+    (node : Node) (h : LinkInv s) (hn : s1.nodes = s.nodes) (h3 : ∀ n ∈ s.nodes, n.v ≠ cv)
+    (hmem : node ∈ s.nodes) (hnodev : node.v = v) (hnoder : node.repo = repo) :
+    LinkInv (attachChild s1 repo v cu cv bname) := by
+  unfold LinkInv attachChild
+  simp only [State.updNode, hn]
+  have hmapv : ∀ n ∈ s.nodes.map (fun n => if n.v = v ∧ n.repo = repo then { n with children := n.children ++ [cv] } else n), n.v ≠ cv := by
+    intro n hn'
+    obtain ⟨n0, hn0, rfl⟩ := List.mem_map.mp hn'
+    have := h3 n0 hn0
+    split <;> simpa using this
+  have hfil : (s.nodes.map (fun n => if n.v = v ∧ n.repo = repo then { n with children := n.children ++ [cv] } else n)).filter
+      (fun n => !(decide (n.v = cv ∧ n.repo = repo))) =
+      s.nodes.map (fun n => if n.v = v ∧ n.repo = repo then { n with children := n.children ++ [cv] } else n) := by
+    apply List.filter_eq_self.mpr
+    intro n hn'
+    have := hmapv n hn'
+    simp only [Bool.not_eq_true', decide_eq_false_iff_not, not_and]
+    intro e; exact absurd e this
+  rw [hfil]
+  apply linkL_attach h _ (pres_ite (fun n => n.v = v ∧ n.repo = repo) _ (pres_addChild cv))
+    (presId_ite (fun n => n.v = v ∧ n.repo = repo) _ (presId_addChild cv)) repo cv [v] _ _ rfl rfl rfl rfl (by simp)
+  · intro p hp
+    simp only [List.mem_singleton] at hp
+    exact ⟨node, hmem, by rw [hp]; exact hnodev, hnoder⟩
+  · intro n x
+    by_cases hc : n.v = v ∧ n.repo = repo
+    · simp [hc]
+    · have hc' : ¬ (n.repo = repo ∧ n.v = v) := fun e => hc ⟨e.2, e.1⟩
+      simp [hc, hc']
+
+theorem newVersion_link (s : State) (p b : String) (a : Option String) (hi : Inv s) (hid : IdInv s) (h : LinkInv s) :
+    LinkInv (newVersion s p b a).1 := by
+  unfold newVersion
+  cases hr : lookup s.repos p with
+  | none => exact h
+  | some repo =>
+    cases hv : lookup s.u2v p with
+    | none => exact h
+    | some v =>
+      simp only
+      cases hnode : s.node? repo v with
+      | none => exact h
+      | some node =>
+        simp only
+        cases hl : node.locked with
+        | false => simp; exact h
+        | true =>
+          simp only [Bool.not_true, Bool.false_eq_true, if_false]
+          cases hb : branchOk s repo node b with
+          | none => exact h
+          | some bname =>
+            simp only
+            cases hu : newUUID s a with
+            | none => exact h
+            | some t =>
+              obtain ⟨s1, cu, cv⟩ := t
+              obtain ⟨hn, _, _, _⟩ := newUUID_nodes hu
+              obtain ⟨_, _, _, h3⟩ := newUUID_ids hu hi hid
+              obtain ⟨hmem, hnodev, hnoder⟩ := node?_mem hnode
+              exact attachChild_link s s1 repo v cu cv bname node h hn h3 hmem hnodev hnoder
+
+theorem mapM_length {α β : Type} (f : α → Option β) (l : List α) (r : List β) (h : l.mapM f = some r) :
+    r.length = l.length := by
+  induction l generalizing r with
+  | nil => simp at h; subst h; rfl
+  | cons a t ih =>
+    simp only [List.mapM_cons, Option.bind_eq_bind, Option.pure_def] at h
+    cases ha : f a with
+    | none => rw [ha] at h; simp at h
+    | some b =>
+      rw [ha] at h
+      cases ht : t.mapM f with
+      | none => rw [ht] at h; simp at h
+      | some bs =>
+        rw [ht] at h; simp at h; subst h
+        simp [ih bs ht]
+
+theorem linkMerge_link (s s1 : State) (repo : String) (pvs : List Nat) (cu : String) (cv : Nat)
+    (h : LinkInv s) (hn : s1.nodes = s.nodes) (hne : pvs ≠ [])
+    (hp : ∀ v ∈ pvs, ∃ m ∈ s.nodes, m.v = v ∧ m.repo = repo ∧ m.locked = true) :
+    LinkInv (linkMerge s1 repo pvs cu cv) := by
+  unfold LinkInv linkMerge
+  obtain ⟨g, hg, hgi, hgc, hgn, _, _, _⟩ := foldl_updNode_full repo cv pvs { s1 with repos := setKey s1.repos cu repo }
+  simp only
+  rw [hgn]
+  simp only [hn]
+  exact linkL_attach h g hg hgi repo cv pvs hgc _ rfl rfl rfl rfl hne
+    (fun p hpm => by obtain ⟨m, hm, hmv, hmr, _⟩ := hp p hpm; exact ⟨m, hm, hmv, hmr⟩)
+
+theorem merge_link (s : State) (ps : List String) (h : LinkInv s) : LinkInv (merge s ps).1 := by
+  unfold merge
+  simp only [Gen.mergeValidatesFirst, if_true]
+  split
+  · exact h
+  · rename_i hlen
+    cases hrepo : (ps.head? >>= lookup s.repos) with
+    | none => exact h
+    | some repo =>
+      simp only
+      cases hpvs : ps.mapM (mergeParentOk s repo) with
+      | none => exact h
+      | some pvs =>
+        simp only
+        split
+        · exact h
+        · cases hu : newUUID s none with
+          | none => exact h
+          | some t =>
+            obtain ⟨s1, cu, cv⟩ := t
+            obtain ⟨hn, _, _, _⟩ := newUUID_nodes hu
+            have hl := mapM_length _ _ _ hpvs
+            have hne : pvs ≠ [] := by
+              intro e; rw [e] at hl; simp at hl; omega
+            exact linkMerge_link s s1 repo pvs cu cv h hn hne (mapM_mergeParentOk hpvs)
+
+theorem tag_link (s : State) (p t : String) (hi : Inv s) (hid : IdInv s) (h : LinkInv s) : LinkInv (tag s p t).1 := by
+  unfold tag
+  split
+  · exact h
+  · have h1 := newVersion_link s p ("tag-" ++ t) (some t) hi hid h
+    cases hnv : newVersion s p ("tag-" ++ t) (some t) with
+    | mk s1 r1 =>
+      rw [hnv] at h1
+      simp only at h1 ⊢
+      cases r1 with
+      | err => simp only [Gen.tagCommitsOnlyOnSuccess, if_true]; exact h1
+      | ok u => exact commit_link s1 t h1
+
+theorem deleteRepo_link (s : State) (u : String) (h : LinkInv s) : LinkInv (deleteRepo s u).1 := by
+  unfold deleteRepo
+  split
+  · exact h
+  · rename_i repo _
+    split
+    · exact h
+    · unfold LinkInv
+      simp only [dropIds_fold_nodes]
+      refine ⟨?_, ?_, ?_⟩
+      · intro n hn x hx
+        have hn' := List.mem_filter.mp hn
+        obtain ⟨m, hm, hmv, hmr, hmp⟩ := h.1 n hn'.1 x hx
+        refine ⟨m, List.mem_filter.mpr ⟨hm, ?_⟩, hmv, hmr, hmp⟩
+        have : n.repo ≠ repo := by simpa using hn'.2
+        simp only [decide_eq_true_eq, ne_eq]; rw [hmr]; exact this
+      · intro m hm p hp
+        have hm' := List.mem_filter.mp hm
+        obtain ⟨n, hn, hnv, hnr, hnc⟩ := h.2.1 m hm'.1 p hp
+        refine ⟨n, List.mem_filter.mpr ⟨hn, ?_⟩, hnv, hnr, hnc⟩
+        have : m.repo ≠ repo := by simpa using hm'.2
+        simp only [decide_eq_true_eq, ne_eq]; rw [hnr]; exact this
+      · intro n hn hp
+        exact h.2.2 n (List.mem_filter.mp hn).1 hp
+
+theorem step_link (s : State) (r : Req) (hi : Inv s) (hid : IdInv s) (h : LinkInv s) : LinkInv (step s r).1 := by
+  cases r with
+  | newRepo a => exact newRepo_link s a h
+  | commit u => exact commit_link s u h
+  | newVersion p a =>
+    simp only [step]
+    cases a with
+    | none => exact newVersion_link s p "" none hi hid h
+    | some u => simp only; split <;> first | exact newVersion_link s p "" (some u) hi hid h | exact h
+  | branch p name a =>
+    simp only [step]
+    split
+    · exact h
+    · cases a with
+      | none => exact newVersion_link s p name none hi hid h
+      | some u => simp only; split <;> first | exact newVersion_link s p name (some u) hi hid h | exact h
+  | tag p t => exact tag_link s p t hi hid h
+  | merge ps => exact merge_link s ps h
+  | deleteRepo u => exact deleteRepo_link s u h
+
+theorem reachable_all (rs : List Req) :
+    Inv (rs.foldl (fun s r => (step s r).1) init) ∧ IdInv (rs.foldl (fun s r => (step s r).1) init) ∧
+    LinkInv (rs.foldl (fun s r => (step s r).1) init) := by
+  suffices h : ∀ s, Inv s → IdInv s → LinkInv s →
+      Inv (rs.foldl (fun s r => (step s r).1) s) ∧ IdInv (rs.foldl (fun s r => (step s r).1) s) ∧
+      LinkInv (rs.foldl (fun s r => (step s r).1) s) by
+    exact h init ⟨by intro n hn; simp [init] at hn, by intro n hn; simp [init] at hn⟩
+      ⟨by intro n hn; simp [init] at hn, by intro n hn; simp [init] at hn, by intro n hn; simp [init] at hn⟩
+      ⟨by intro n hn; simp [init] at hn, by intro n hn; simp [init] at hn, by intro n hn; simp [init] at hn⟩
+  induction rs with
+  | nil => intro s a b c; exact ⟨a, b, c⟩
+  | cons r rest ih => intro s a b c; exact ih _ (step_inv s r a) (step_id s r a b) (step_link s r a b c)
+
+/-- **parent and child links mirror each other** after any sequence of requests: a child id in a node's child
+    list names exactly one node, of the same repo, that lists the node among its parents, and every parent id
+    names exactly one node, of the same repo, that lists the child -/
+theorem links_mirror (rs : List Req) :
+    let s := rs.foldl (fun s r => (step s r).1) init
+    (∀ n ∈ s.nodes, ∀ c ∈ n.children, ∃ m ∈ s.nodes, m.v = c ∧ m.repo = n.repo ∧ n.v ∈ m.parents) ∧
+    (∀ m ∈ s.nodes, ∀ p ∈ m.parents, ∃ n ∈ s.nodes, n.v = p ∧ n.repo = m.repo ∧ m.v ∈ n.children) :=
+  ⟨(reachable_all rs).2.2.1, (reachable_all rs).2.2.2.1⟩
+
+/-- **each repo's graph has a single root**: two nodes without parents in one repo are the same node (the root,
+    whose uuid names the repo) -/
+theorem single_root (rs : List Req) :
+    let s := rs.foldl (fun s r => (step s r).1) init
+    ∀ n ∈ s.nodes, ∀ m ∈ s.nodes, n.parents = [] → m.parents = [] → n.repo = m.repo → n = m := by
+  intro s n hn m hm hnp hmp hr
+  have hl := (reachable_all rs).2.2.2.2
+  have e : n.uuid = m.uuid := by rw [hl n hn hnp, hl m hm hmp, hr]
+  exact (ids_name_one_node rs).2.1 n hn m hm e
+
+/- Non-vacuity: the history used above (branch, merge, refused requests) reaches a state whose links are
+   non-trivial: node 4 has two parents, nodes 2 and 3 list it as a child. -/
+example :
+    let s := [Req.newRepo none, .commit "g1", .newVersion "g1" none, .branch "g1" "dev" none,
+              .commit "g2", .commit "g3", .merge ["g2", "g3"], .deleteRepo "g9"].foldl (fun s r => (step s r).1) init
+    (s.nodes.map (fun n => (n.v, n.uuid, n.parents, n.children))) =
+      [(1, "g1", [], [2, 3]), (2, "g2", [1], [4]), (3, "g3", [1], [4]), (4, "g4", [2, 3], [])] := by
   decide
 
 end Dvid.Props.C07
